@@ -1,10 +1,80 @@
 import RgVerif.Model.Sx
+import RgVerif.Model.IgnoreDir
+import RgVerif.Spec.Precedence
 namespace RgVerif.Driver.C05
-open RgVerif
+open RgVerif RgVerif.Glob RgVerif.Gitignore RgVerif.IgnoreDir
 
-/-- Request handler of property C05: `cmd` is the first token of the line, `args` the rest. -/
+def parseLineSx : Sx → Option (List Nat)
+  | .list (.atom "l" :: cps) => cps.mapM Sx.nat?
+  | _ => none
+
+def parseLines (xs : List Sx) : Option (List (List Nat)) := xs.mapM parseLineSx
+
+def mkGi (ci : Bool) (root : Bytes) (lines : List (List Nat)) : Gi :=
+  { root := root, globs := buildGlobs ci lines }
+
+def parseFlags (s : String) : Option Flags :=
+  match s.toList.map (· == '1') with
+  | [h, d, e, f, g, p, v, r] => some ⟨h, d, e, f, g, p, v, r⟩
+  | _ => none
+
+structure DirEntry where
+  abs : Bytes
+  dotGit : Bool
+  rg : List (List Nat)
+  ig : List (List Nat)
+  gi : List (List Nat)
+  ex : List (List Nat)
+
+def parseDir : Sx → Option DirEntry
+  | .list [.atom "d", p, g, .list (.atom "rg" :: a), .list (.atom "ig" :: b), .list (.atom "gi" :: c),
+           .list (.atom "ex" :: d)] => do
+    pure { abs := (← p.bytes?), dotGit := (← g.bool?), rg := (← parseLines a), ig := (← parseLines b),
+           gi := (← parseLines c), ex := (← parseLines d) }
+  | _ => none
+
+def filesOf (ci : Bool) (tab : List DirEntry) (abs : Bytes) : DirFiles :=
+  match tab.find? (fun e => e.abs == abs) with
+  | some e => { dir := abs, custom := mkGi ci [] e.rg, ignore := mkGi ci [] e.ig,
+                gitignore := mkGi ci [] e.gi, exclude := mkGi ci [] e.ex, dotGit := e.dotGit }
+  | none => { dir := abs, custom := Gi.empty, ignore := Gi.empty, gitignore := Gi.empty,
+              exclude := Gi.empty, dotGit := false }
+
+def parseType : Sx → Option (Bool × Glob)
+  | .list (.atom "t" :: neg :: cps) => do
+    let neg ← neg.bool?
+    let cs ← cps.mapM Sx.nat?
+    let o : Glob.Opts := { ci := false, ls := true, be := true, ea := false }
+    match parse o cs with
+    | .ok toks => pure (neg, { opts := o, tokens := toks })
+    | .error _ => none
+  | _ => none
+
 def handle (cmd : String) (args : List Sx) : String :=
   match cmd, args with
+  | "c05.walk", [.list [.atom "flags", .atom fl], .list [.atom "ci", ci], .list [.atom "cwd", cwd],
+                 .list (.atom "global" :: gl), .list (.atom "igfiles" :: igf), .list (.atom "globs" :: globs),
+                 .list (.atom "types" :: tys), .list [.atom "typessel", tsel],
+                 .list [.atom "root", rg, ra], .list (.atom "dirs" :: dirs), .list (.atom "entries" :: ents)] =>
+    match parseFlags fl, ci.bool?, cwd.bytes?, parseLines gl,
+          igf.mapM (fun x => match x with | .list (.atom "f" :: ls) => parseLines ls | _ => none),
+          parseLines globs, tys.mapM parseType, tsel.bool?, rg.bytes?, ra.bytes?, dirs.mapM parseDir,
+          ents.mapM (fun e => match e with
+            | .list (d :: comps) => do pure ((← d.bool?), (← comps.mapM Sx.bytes?))
+            | _ => none) with
+    | some fl, some ci, some cwd, some gl, some igf, some globs, some tys, some tsel, some rg, some ra,
+      some dirs, some ents =>
+      let ov := mkGi false cwd globs
+      let m : Matchers :=
+        { overrides := ov, overrideWhitelists := (ov.globs.filter (fun g => !g.isWhitelist)).length,
+          types := tys, typesSelected := tsel,
+          explicit := if useIgnoreFiles fl then igf.map (mkGi ci []) else [],
+          global := mkGi ci [] gl }
+      let w : World := { opts := walkOpts fl, m := m, rootGiven := rg, rootAbs := ra, files := filesOf ci dirs }
+      let wfix : World := { w with fixRebase := true }
+      String.ofList (ents.flatMap fun (d, comps) =>
+        [if entryVisited w comps d then '1' else '0', if entryVisited wfix comps d then '1' else '0'])
+    | _, _, _, _, _, _, _, _, _, _, _, _ => "bad-op"
   | _, _ => "bad-op"
 
 end RgVerif.Driver.C05
